@@ -40,9 +40,9 @@ int main(int argc, char** argv)
                                              "--problem",
                                              std::to_string(I("problem")),
                                              "--alpha_coeff",
-                                             "1",
+                                             std::to_string(I("alpha")),
                                              "--beta_coeff",
-                                             std::to_string(I("geometry") % 2),
+                                             std::to_string(I("beta")),
                                              "--kappa_eps",
                                              I("geometry") == 0 ? "0.0" : "0.3",
                                              "--delta_e",
